@@ -58,6 +58,7 @@ func cmdVerify(args []string) {
 	repo := fs.String("repo", "/repo", "repository")
 	keep := fs.String("keep", "/tmp/govc-q", "query dir")
 	model := fs.Bool("model", false, "print values of SSA registers for sat obligations")
+	as := fs.String("as", "", "verify against interface contract (e.g. github.com/philpearl/avro.Codec.Read)")
 	fs.Parse(args)
 	t0 := time.Now()
 	e, err := NewEngine(*repo, "/verif/spec")
@@ -77,7 +78,7 @@ func cmdVerify(args []string) {
 			continue
 		}
 		c := e.contractFor(fn)
-		res := e.VerifyFunction(fn, c, *panics, nil)
+		res := e.VerifyFunctionAs(fn, c, *panics, nil, *as)
 		e.Solve(res.Obls, SolveCfg{TimeoutS: *timeout, Dir: *keep, Workers: 8})
 		printResult(e, res, *verbose)
 		if *model {
